@@ -57,7 +57,7 @@ Modes  == {"file", "line"}
 
 \* ------------------------------------------------------------------ bytes and classes
 WS      == {32, 9, 10, 13}            \* what the lexer skips between tokens
-TrimWS  == {9, 10, 11, 12, 13, 32}    \* what strings.TrimSpace removes (ASCII part)
+TrimWS  == {9, 13, 32}    \* the trailing bytes a line comment may leave out of its text: what the lexer itself skips as white space (tab, CR, blank)
 DigitS  == 48..57
 DigUS   == DigitS \cup {95}
 HexS    == DigUS \cup (97..102) \cup (65..70)
